@@ -3,6 +3,7 @@ import Driver.Ops.C07
 import Driver.Ops.C17
 import Driver.Ops.Std
 import Driver.Ops.C05
+import Driver.Ops.C14
 namespace ZVD
 
 def allOps : OpTable :=
@@ -11,6 +12,7 @@ def allOps : OpTable :=
   ++ opsC17
   ++ opsStd
   ++ opsC05
+  ++ opsC14
 
 def dispatch (op : String) (a : Args) : Except String String :=
   match allOps.find? (·.1 == op) with
